@@ -25,6 +25,11 @@ for path in conf:
         ids = {x["id"] for x in a}
         a += [x for x in b if x["id"] not in ids]
         json.dump(a, open(path, "w"), indent=1)
+    elif path == "tools/facts/main.go":
+        import re as _re
+        txt = open(path).read()
+        txt = _re.sub(r"(?m)^(<<<<<<< .*|=======|>>>>>>> .*)\n", "", txt)   # keep both sides (additive subcommands)
+        open(path, "w").write(txt)
     elif path.startswith("evidence/") or path == "MANIFEST.json":
         open(path, "w").write(ours)
     else:
